@@ -46,9 +46,16 @@ def _meet(a, b):
 
 
 class MustAnalysis:
-    def __init__(self, transfer, may_raise=may_raise_default, catch_all_names=("BaseException",)):
+    def __init__(self, transfer, may_raise=may_raise_default, implicit="both", branch=None):
+        """implicit: facts carried by an implicit exception raised inside a statement --
+             'both'   = facts that held before AND after it (effect may or may not have happened)
+             'before' = facts before it (the repo idiom: operands are evaluated first, the effect -- an attribute
+                        store, list.append, sys.setrecursionlimit -- is the last step and does not itself fail)
+           branch(test, polarity, facts) -> facts   optional refinement on the two sides of an ``if`` test"""
         self.transfer = transfer
         self.may_raise = may_raise
+        self.implicit = implicit
+        self.branch = branch
         self.at: dict = {}
         self.after: dict = {}
 
@@ -70,7 +77,7 @@ class MustAnalysis:
         self.after[id(node)] = after
         pend = []
         if self.may_raise(node):
-            pend.append(("implicit-raise", node, facts & after))
+            pend.append(("implicit-raise", node, facts if self.implicit == "before" else facts & after))
         return after, pend
 
     def block(self, stmts, facts) -> Out:
@@ -99,8 +106,10 @@ class MustAnalysis:
             return Out(None, [("continue", st, facts)])
         if isinstance(st, ast.If):
             f, p = self.simple(st.test, facts)
-            o1 = self.block(st.body, f)
-            o2 = self.block(st.orelse, f) if st.orelse else Out(f)
+            ft = self.branch(st.test, True, f) if self.branch else f
+            ff = self.branch(st.test, False, f) if self.branch else f
+            o1 = self.block(st.body, ft)
+            o2 = self.block(st.orelse, ff) if st.orelse else Out(ff)
             return Out(_meet(o1.normal, o2.normal), p + o1.pending + o2.pending)
         if isinstance(st, (ast.While, ast.For, ast.AsyncFor)):
             return self.loop(st, facts)
@@ -204,7 +213,7 @@ class MustAnalysis:
         return Out(out_normal, pend)
 
 
-def analyze(body, transfer, entry=frozenset(), may_raise=may_raise_default):
-    m = MustAnalysis(transfer, may_raise)
+def analyze(body, transfer, entry=frozenset(), may_raise=may_raise_default, implicit="both", branch=None):
+    m = MustAnalysis(transfer, may_raise, implicit, branch)
     exits = m.run(body, entry)
     return exits, m
